@@ -51,6 +51,9 @@ claimed = {
  "C20": ("model_checking", "per-layout BFS over operation sequences of the real PrmBuilder against a reference bit packer",
    "All layouts of 1-2 fields from 12 data types at offsets {0,1} (shared bytes, overlapping multi-byte fields) over 4 constant backgrounds, with boundary defaults, min-max/enum constraints and text tables; all set_prm / set_prm_from_text sequences up to depth 3 (2 for pairs in quick) with boundary and out-of-range values, unknown names and texts; every resulting block is compared with a mask-merge big-endian reference packer, errors must leave the block unchanged.",
    "Known finding F9 (BitArea clobbers its byte) is reported as KNOWN-FINDING; invalid type descriptors are not generated.", "6 C20"),
+ "C19": ("exploration", "bounded exhaustive enumeration of rendered GSD documents (templates x values x lexical variants), grammar-level mutations at every position, and all short token strings",
+   "(a) every statement template with boundary hole values (and the dependency chains PrmText->ExtUserPrmData->Ref, Module->Slot, plus one full document) is rendered by an independent pretty-printer in the product of lexical variants (keyword case, '=' spacing, trailing/full-line comments, LF/CRLF, text before the marker incl. '#', line continuations) and the parsed description is compared field by field; (b) every number/string swap, numeric extreme, unknown data type, dangling reference and deleted '(' ')' '=' '-' or line at every position of the generated documents and of mock.gsd; (c) all token strings up to length 5/6 over 14 token classes and all 1-2 byte raw inputs. Oracle: never unwinds; (a) must be Ok and equal.",
+   "Trusted: the independent pretty-printer / expected-value logic; long random texts are not covered.", "6 C19"),
 }
 not_applicable_reasons = {}
 
